@@ -8,10 +8,14 @@ ids = [p["id"] for p in props]
 CLAIMED = {
  "C03": ("proof", "Lean: every record of every model run satisfies C03.stepOK (fresh lease, attempt+1, only ready/expired messages, nothing else leased) + lease budget theorem; tie: op-trace correspondence on memory and SQLite with kept lease ids and boundary clocks", "§7 C03",
          "Lean proof over the queue model + differential correspondence (memory, SQLite)"),
+ "C04": ("proof", "Lean: every lease-operation record of every model run satisfies C04.stepOK' (stale/foreign/expired/unknown/blank lease: conflict and no change beyond expired-lease release; live lease: exact effect on exactly that message; batch = per-id rule, first occurrence decides); tie: lease-profile traces that keep and replay every lease id ever issued", "§7 C04",
+         "Lean proof over the queue model + differential correspondence (memory, SQLite)"),
  "C05": ("proof", "Lean: dequeue count between min(batch, must-offer) and min(batch, may-offer), no starvation, nack visibility exact, restart preserves; tie: fine-clock traces incl. restart on SQLite", "§7 C05",
          "Lean proof over the queue model + differential correspondence (memory, SQLite)"),
  "C06": ("proof", "Lean: total classification table (classify_spec), bounded sends for every behaviour sequence, exact-arithmetic delay bounds, terminal reasons; tie: exhaustive status table + scripted cycles through the real classifyDelivery/handleDelivery, retryDelay float vs exact model", "§7 C06",
          "Lean proof of the decision logic + exhaustive/differential correspondence"),
+ "C16": ("proof", "Lean: allowed => scheme/https/rebind(no listed address class, by range arithmetic)/deny/allow conditions; every redirect hop checked; denied sends nothing; tie: URL x resolver x policy differential through real checkEgressPolicy, address-class edges, redirect chains through the real HTTPDeliverer", "§7 C16",
+         "Lean proof of the decision logic + differential correspondence"),
  "C12": ("proof", "Lean: every enqueue record of every model run satisfies C12.stepOK (admission iff below depth, drop_oldest accounting, refusal leaves queue unchanged); tie: admit-profile traces on memory and SQLite", "§7 C12",
          "Lean proof over the queue model + differential correspondence (memory, SQLite)"),
  "C14": ("proof", "Lean: every operator-mutation record of every model run satisfies C14.stepOK (exact frame, newest-first capped selection, preview = real, counts exact); tie: operator-profile traces with tie timestamps", "§7 C14",
